@@ -246,6 +246,36 @@ class V:
     def __mul__(self, o):
         return self._arith(o, lambda a, b: a * b)
 
+    def __rsub__(self, o):
+        return V.lift(o)._arith(self, lambda a, b: a - b)
+
+    def __radd__(self, o):
+        return V.lift(o)._arith(self, lambda a, b: a + b)
+
+    def __rmul__(self, o):
+        return V.lift(o)._arith(self, lambda a, b: a * b)
+
+    def __rtruediv__(self, o):
+        return V.lift(o).__truediv__(self)
+
+    def _pow(self, base, exp):
+        base, exp = V.lift(base), V.lift(exp)
+        if base.v is None or exp.v is None:
+            return V(None)
+        try:
+            r = float(base.v) ** float(exp.v)
+        except (OverflowError, ZeroDivisionError):
+            return V(None)
+        if isinstance(r, complex):
+            return V(None)
+        return V(r)
+
+    def __pow__(self, o):
+        return self._pow(self, o)
+
+    def __rpow__(self, o):
+        return self._pow(o, self)
+
     def __neg__(self):
         return V(None if self.v is None else -self.v)
 
